@@ -51,7 +51,7 @@ func (ld *Loaded) lemmaCases(fn *ssa.Function) int {
 func (ld *Loaded) lemmaVC(fn *ssa.Function, kcase int) (vc *VC, err error) {
 	defer func() {
 		if r := recover(); r != nil {
-			if u, ok := r.(Unsupported); ok {
+			if u, ok := asUnsupported(r); ok {
 				err = fmt.Errorf("UNSUPPORTED %s (lemma %s)", u.Msg, fn.Name())
 				return
 			}
